@@ -134,6 +134,27 @@ fn verif_case() {
             }
             Err(_) => fails.push("parse_err"),
         }
+        // the compressed writer of the same record (inside a packet): same fields after parsing, never longer
+        {
+            let mut pk = crate::Packet::new_reply(1);
+            pk.answers.push(rr.clone());
+            match (pk.build_bytes_vec_compressed(), pk.build_bytes_vec()) {
+                (Ok(c), Ok(pl)) => {
+                    if c.len() > pl.len() { fails.push("comp_len"); }
+                    match crate::Packet::parse(&c) {
+                        Ok(q) => {
+                            if q.answers.len() != 1 { fails.push("comp_fields"); } else {
+                                let p = &q.answers[0];
+                                if !(p.name == rr.name && p.class == rr.class && p.ttl == rr.ttl
+                                     && p.cache_flush == rr.cache_flush && p.rdata == rr.rdata) { fails.push("comp_fields"); }
+                            }
+                        }
+                        Err(_) => fails.push("comp_parse"),
+                    }
+                }
+                _ => fails.push("comp_build"),
+            }
+        }
         fails
     });
     match r {
@@ -159,6 +180,11 @@ def run_task(prog, tid, params, tier):
     f_parse = fn(prog, 'ResourceRecord', 'parse')
     f_len = fn(prog, 'ResourceRecord', 'len')
     f_tc = [f for t, f in prog.methods[('RData', 'type_code')] if t is None][0]
+    f_reply = [f for t, f in prog.methods[('Packet', 'new_reply')] if t is None][0]
+    f_comp = [f for t, f in prog.methods[('Packet', 'build_bytes_vec_compressed')] if t is None][0]
+    f_pparse = [f for t, f in prog.methods[('Packet', 'parse')] if t is None][0]
+    tt = S.BY_NAME.get(tname)
+    has_names = tt is not None and (tt.wrapper == 'name' or any(k == 'name' for _, k in tt.fields) or tname in ('NSEC', 'SVCB', 'HTTPS', 'IPSECKEY'))
     agg = {'paths': 0, 'queries': 0, 'solver_s': 0.0, 'outcomes': {}, 'functions': set(), 'covers_witnessed': 0,
            'shapes': len(shapes)}
     for si, shape in enumerate(shapes):
@@ -177,6 +203,15 @@ def run_task(prog, tid, params, tier):
             buf = X.byte_buffer(I, expected, 'wire')
             pos = Cell(mk('usize', 0), 'pos')
             p = I.call_function(f_parse, [buf, Ref(pos)], {})
+            I.comp = None
+            if has_names and tname != 'OPT':
+                # the type's write_compressed_to, through the packet-level compressed writer: parse(compressed) gives the same record
+                pk = I.call_function(f_reply, [mk('u16', 1)], {})
+                idx = prog.structs['Packet'].index('answers')
+                pk = Agg(pk.ty, tuple(pk.f[:idx]) + (VecV([rr]),) + tuple(pk.f[idx + 1:]))
+                cb = I.call_function(f_comp, [I.new_ref(pk, 'pk')], {})
+                cq = I.call_function(f_pparse, [X.byte_buffer(I, list(cb.f[0].items), 'comp')], {}) if cb.var == 'Ok' else None
+                I.comp = (cb, cq, idx)
             return (w, written, ln, p, pos.v)
 
         def on_path(res):
@@ -224,6 +259,17 @@ def run_task(prog, tid, params, tier):
             eq = deep_eq(I, p.f[0], rr) if not shape.get('skip_eq') else z3.BoolVal(True)
             if res.ctx.check(z3.Not(eq)):
                 return viol('fields: parsed record differs from the original')
+            if I.comp is not None:
+                cb, cq, idx = I.comp
+                if cb.var != 'Ok':
+                    return viol('comp_build: the compressed writer fails on a valid record')
+                if cq.var != 'Ok':
+                    return viol('comp_parse: the compressed encoding of the record is rejected')
+                ans = list(cq.f[0].f[idx].items)
+                if len(ans) != 1 or res.ctx.check(z3.Not(deep_eq(I, ans[0], rr))):
+                    return viol('comp_fields: the record read back from its compressed encoding differs from the original')
+                if len(cb.f[0].items) > 12 + len(expected):
+                    return viol('comp_len: the compressed encoding is longer than the plain one')
             ok_paths[0] += 1
             return None
 
